@@ -203,7 +203,8 @@ class LinUnit(Unit):
             if racy:
                 return
             raise Inconclusive("driver recorded nothing")
-        chunks = [hs[i:i + self.chunk] for i in range(0, len(hs), self.chunk)]
+        size = max(self.chunk, len(hs) // (self.jobs * 4))   # fewer, longer TLC runs for the thorough tier
+        chunks = [hs[i:i + size] for i in range(0, len(hs), size)]
         controls = {}
         for what in ("get", "iter", "keys", "hang"):
             lines, at = corrupt(hs, what)
